@@ -222,6 +222,11 @@ def job_metrics(ctx, k):
     E2 = np.array([rq.axang2q([-1, 0.5, 2], 1.3)[1:] * s for s in (3, 2, 1, 0, -1, -3)])
     _cmp_batch(ctx, 'metrics.euclidean batch row = single', [f'e{i}' for i in range(6)], lambda idx: np.asarray(M.euclidean(E1[idx].copy(), E2[idx].copy())),
                lambda i: M.euclidean(E1[i].copy(), E2[i].copy()), 'metric')
+    # rmse: rows with and without missing (NaN) elements, in either argument
+    X = np.array([rq.axang2q([1, 2, 3], 0.3 * i) for i in range(8)]); Y = np.array([rq.axang2q([-1, 0.5, 2], 0.2 * i + 0.1) for i in range(8)])
+    X[1, 2] = np.nan; Y[3, 0] = np.nan; X[5, 1] = np.nan; Y[5, 3] = np.nan
+    _cmp_batch(ctx, 'metrics.rmse batch row = single', [f'row{i}' + (' (NaN element)' if i in (1, 3, 5) else '') for i in range(8)],
+               lambda idx: np.asarray(M.rmse(X[idx].copy(), Y[idx].copy())), lambda i: M.rmse(X[i].copy(), Y[i].copy()), 'metric')
     ctx.sample({'metric_pairs': len(pairs), 'example': labels[-1]})
 
 
@@ -299,6 +304,31 @@ def job_options(ctx):
         nedN = np.asarray(getattr(cls(aN.copy(), mN.copy(), frame='NED', **kw), attr)); enuN = np.asarray(getattr(cls(aN.copy(), mN.copy(), frame='ENU', **kw), attr))
         ctx.expect(rq.qangle(rq.qunit(ned1), rq.qunit(enu1)) > 0.1 and rq.qangle(rq.qunit(nedN[0]), rq.qunit(enuN[0])) > 0.1,
                    f'{cls.__name__} frame honoured on both paths (NED and ENU answers differ)', 'frame', [ned1, enu1], 'different rotations')
+    # accepted spellings of an option (the classes validate case-insensitively): N-sample rows = one-sample result, for every spelling accepted
+    v1 = np.array([0, 0, 1.0]); v2 = np.array([0.5, 0, 0.8])
+    cases = []
+    for sp in ('quaternion', 'Quaternion', 'QUATERNION', 'rotmat', 'RotMat', 'ROTMAT'):
+        cases.append((f'TRIAD representation={sp}', lambda a, m, sp=sp: F.TRIAD(a, m, v1=v1.copy(), v2=v2.copy(), representation=sp).A))
+        cases.append((f'SAAM representation={sp}', lambda a, m, sp=sp: (lambda o: o.A if sp.lower() == 'rotmat' else o.Q)(F.SAAM(a, m, representation=sp))))
+    for sp in ('NED', 'ned', 'Enu', 'ENU', 'enu'):
+        cases.append((f'TRIAD frame={sp}', lambda a, m, sp=sp: F.TRIAD(a, m, frame=sp, representation='quaternion', v2=np.array([0.3, 0.2, 0.6])).A))
+        cases.append((f'OLEQ frame={sp}', lambda a, m, sp=sp: F.OLEQ(a, m, frame=sp, magnetic_ref=60.0).Q))
+    for sp in ('eig', 'EIG', 'Symbolic', 'NEWTON', 'newton'):
+        cases.append((f'FLAE method={sp}', lambda a, m, sp=sp: F.FLAE(a, m, method=sp, magnetic_dip=60.0).Q))
+    for nm, mk in cases:
+        try:
+            np.random.seed(9); o1 = np.asarray(mk(a1.copy(), m1.copy()))
+        except Exception:
+            continue                        # a spelling the class does not accept is not judged
+        tl = 1e-6 if nm.startswith('OLEQ') else 1e-9       # OLEQ iterates from a random start vector to a 1e-8 stopping rule
+        try:
+            np.random.seed(9); oN = np.asarray(mk(aN.copy(), mN.copy()))
+            np.random.seed(9); o1r = np.asarray(mk(a1.copy()[None], m1.copy()[None]))
+            ok = oN.shape == (3,) + o1.shape and o1r.shape == (1,) + o1.shape and all(_eq(row, o1, tl) or _eq(-row, o1, tl) for row in list(oN) + list(o1r))
+        except Exception as ex:
+            ok = False; oN = repr(ex)
+        ctx.expect(ok, 'an option spelling accepted on the one-sample path gives the same rows on the N-sample and one-row paths', nm, oN, o1)
+        ctx.seen(('spell', nm))
     ctx.sample({'options': 'FLAE method, Tilt/SAAM/TRIAD representation, TRIAD/OLEQ frame'})
 
 
